@@ -698,3 +698,57 @@ Proof.
   - destruct H1 as [->|H1]; [now left|now right].
   - intros w [<-|Hw]; auto.
 Qed.
+
+(** ** projector chains *)
+
+Lemma gpfs_shape sim pop s parent :
+  get_projector_from_shortcut sim pop s parent =
+    match get_projector_from_shortcut sim pop s [] with
+    | Some c => Some (c ++ parent)
+    | None => None
+    end /\
+  get_projector_from_shortcut sim pop s [] <> Some [].
+Proof.
+  unfold get_projector_from_shortcut. destruct pop as [|k].
+  - destruct (find_pop sim s); split; try reflexivity; discriminate.
+  - destruct (String.eqb s "first_person"); [split; [reflexivity|discriminate]|].
+    destruct (nth_error (s_groups sim) k) as [p|]; [|split; [reflexivity|discriminate]].
+    destruct (find_role (e_roles (g_entity p)) s (Some 1)); [split; [reflexivity|discriminate]|].
+    destruct (existsb (String.eqb s) (e_containing (g_entity p))); [|split; [reflexivity|discriminate]].
+    destruct (find_pop sim s); split; try reflexivity; discriminate.
+Qed.
+
+Lemma resolve_chain sim path : forall cur chain,
+  resolve sim cur path chain =
+  match resolve sim cur path [] with
+  | Ok (c, e) => Ok (c ++ chain, e)
+  | Err e => Err e
+  end.
+Proof.
+  induction path as [|s rest IH]; intros cur chain; [reflexivity|].
+  cbn [resolve]. destruct (gpfs_shape sim cur s chain) as [E NE]. rewrite E.
+  destruct (get_projector_from_shortcut sim cur s []) as [[|pr ch]|]; [congruence| |reflexivity].
+  cbn [app]. rewrite (IH _ (pr :: ch ++ chain)), (IH _ (pr :: ch)).
+  destruct (resolve sim (reference_entity pr) rest []) as [[c e]|e]; [|reflexivity].
+  now rewrite <- app_assoc.
+Qed.
+
+Lemma resolve_app sim path1 path2 : forall cur chain,
+  resolve sim cur (path1 ++ path2) chain =
+  bind (resolve sim cur path1 chain) (fun ce => resolve sim (snd ce) path2 (fst ce)).
+Proof.
+  induction path1 as [|s rest IH]; intros cur chain; [reflexivity|].
+  cbn [app resolve]. destruct (get_projector_from_shortcut sim cur s chain) as [[|pr ch]|]; try reflexivity.
+  apply IH.
+Qed.
+
+Lemma chain_composition sim start path1 path2 c1 mid c2 last :
+  resolve sim start path1 [] = Ok (c1, mid) ->
+  resolve sim mid path2 [] = Ok (c2, last) ->
+  resolve sim start (path1 ++ path2) [] = Ok (c2 ++ c1, last) /\
+  forall x, transform_and_bubble_up sim (c2 ++ c1) x =
+            bind (transform_and_bubble_up sim c2 x) (transform_and_bubble_up sim c1).
+Proof.
+  intros R1 R2. split; [|intros x; apply bubble_app].
+  rewrite resolve_app, R1. cbn [bind fst snd]. rewrite resolve_chain, R2. reflexivity.
+Qed.
